@@ -182,7 +182,7 @@ def random_name(rng, i):
     return "".join(parts)
 
 
-def make_trace(tid, rng, nops=30, align=None):
+def make_trace(tid, rng, nops=30, align=None, delta=False):
     """B: a random VMDK extent list at real geometry opened through VMDK([handles...]) or through a descriptor file naming
     the extents by randomly generated file names; trace for TraceDisk (extents source)."""
     from dissect.hypervisor.disk.vmdk import VMDK
@@ -195,9 +195,9 @@ def make_trace(tid, rng, nops=30, align=None):
         grain, gbytes, k = 8, 4096, rng.randrange(250, 420)
     vfs, exts, bases = [], [], []
     start = 0
-    via = rng.choice(["handles", "descriptor"])
+    via = "descriptor" if delta else rng.choice(["handles", "descriptor"])
     # a delta disk: the sparse extents fall through to a parent disk (named by the descriptor) for grains they do not hold
-    with_parent = via == "descriptor" and rng.random() < 0.4
+    with_parent = via == "descriptor" and (delta or rng.random() < 0.4)
     lines, names = [], []
     for i in range(k):
         kind = rng.choice(["flat", "hosted", "hosted", "se", "cowd"])
